@@ -94,7 +94,7 @@ func (p c07) RunBatch(ctx *core.Ctx, batch int) {
 		}
 	default:
 		r := ctx.Rand("chains")
-		leaves := append(qt.FullLeaves(), qt.HostileLeaves(r, gen.ValueDict(r, 80), 24, true)...)
+		leaves := append(append(qt.FullLeaves(), qt.ExtraLeaves()...), qt.HostileLeaves(r, gen.ValueDict(r, 80), 24, true)...)
 		for i := 0; i < 1200; i++ {
 			var t *qt.Node
 			if i%2 == 0 {
